@@ -5,3 +5,6 @@ NOT_YET: reason recorded for properties whose check is not registered yet.
 """
 NOT_APPLICABLE = {}
 NOT_YET = "check not built yet in this session (planned in DESIGN.md section 4; generated-input search applies)"
+
+# properties whose check has been reviewed (quiet at several seeds, mutation-sensitive) and is registered in MANIFEST.json
+ENABLED = ["C01", "C06", "C07", "C08", "C12", "C13", "C19", "C20", "C38", "C43", "C49", "C54", "C56"]
